@@ -1,3 +1,3 @@
 INIT MCInit
 NEXT MCNext
-INVARIANTS NeverPanics Terminates PageSizes TotalSize NoDuplicate InOrder Complete ErrorsExactly OnlyLastEmpty
+INVARIANTS NeverPanics Terminates PageSizes TotalSize NoDuplicate InOrder Complete ErrorsExactly OnlyLastEmpty ListingSorted WriteLaws
